@@ -173,6 +173,27 @@ def _shape_table():
         top = min(hi, I64_MAX)
         return list(range(top - 5, top + 1))
 
+    @shape("many_runs_uneven")
+    def _(r, lo, hi, signed, bits):
+        # >= 9 runs, >= 17 runs in the long form; later runs longer than earlier ones and vice versa
+        vs = []
+        cur = 0
+        for i, ln in enumerate([1, 1, 2, 1, 3, 1, 1, 4, 2, 1, 5, 1, 2, 1, 1, 3, 1, 2, 6]):
+            vs.extend(range(cur, cur + ln))
+            cur += ln + 1 + (i % 2)
+        return vs if cur < hi else vs[:20]
+
+    @shape("many_runs_uneven_neg")
+    def _(r, lo, hi, signed, bits):
+        if not signed:
+            return None
+        vs = []
+        cur = -60
+        for i, ln in enumerate([2, 1, 1, 3, 1, 4, 1, 1, 2, 5, 1, 3]):
+            vs.extend(range(cur, cur + ln))
+            cur += ln + 2 - (i % 2)
+        return vs
+
     # runs touching the limits of a *narrower* type inside a wider repr (for usize/isize: the
     # 32-bit limits, which is what the macro guesses as their size)
     def narrow(bits, r):
@@ -333,6 +354,11 @@ def apply_renames(items, style: str, rng: random.Random):
         idents = [it[0] for it in out]
         for i in range(n):
             out[i][2] = idents[(i + 1) % n]
+    elif style == "multibyte":
+        # short ASCII names plus names whose UTF-8 length exceeds every name's character count
+        forms = ["a", "bb", "\u00e4\u00f6\u00fc\u00df", "c", "\u65e5\u672c\u8a9e", "dd", "\U0001F600\U0001F600", "Gr\u00f6\u00dfe", "e"]
+        for i in range(n):
+            out[i][2] = forms[i] if i < len(forms) else "n%d" % i
     elif style == "all":
         for i in range(n):
             out[i][2] = "n%d" % i
@@ -422,6 +448,6 @@ def random_decl(r: str, rng: random.Random, max_n=24) -> Decl:
     vs = random_values(r, rng, max_n)
     order = rng.choice(["asc", "desc", "perm", "perm", "rot"])
     spelling = rng.choice(["dec", "implicit", "mixed", "mixed", "hex"])
-    renames = rng.choice(["none", "first", "pool", "dups", "edits", "swap", "all"])
+    renames = rng.choice(["none", "first", "pool", "dups", "edits", "swap", "all", "multibyte"])
     seq = order_values(vs, order, rng)
     return build_decl(r, seq, "random", spelling, renames, rng, attrs=rng.random() < 0.3)
